@@ -26,3 +26,19 @@ add("C13", "translation_validation",
     "Translation validation: for each ordered pair of circuits z3 decides the validity of miter_out(x) <=> exists i. left_i(x) != right_i(x) on real-evaluator terms (inputs matched by position); operands unchanged, shapes, well-formedness, dedicated error for mismatched shapes, and satisfiability through Tseytin + solver stub vs z3's inequivalence verdict.",
     "Trusted: CPython, z3, proxies, SAT stub. Bounded: <=4 inputs (seeded) / feature family, 1..3 outputs, <=8 gates.",
     "translation validation with z3 validity of the miter specification", "DESIGN.md §3 C13")
+add("C02", "exploration",
+    "Bounded exploration: one step of each of 19 public mutators (several argument choices) from directly constructed well-formed pre-states with blocks, plus histories of length <=3; the invariant (operands/outputs exist, users index = multiset inverse, inputs list, acyclic, top_sort both ways, blocks, copy equal + independent) is computed independently of cirbo's traversal code.",
+    "No value dimension: the history/program dimension is enumerated lazily, not solved. Calls that raise are not counted. Bounded: <=3 inputs/<=5 gates/<=2 blocks pre-states.",
+    "bounded exploration (inductive step) with independent invariant", "DESIGN.md §3 C02")
+add("C10", "translation_validation",
+    "Translation validation: each composition call (connect_circuit both directions, wrappers, extend, add; internal/repeated/partial connectors; naming/prefix; depth-2) is compared with a reference netlist composition: documented input/output lists, z3 equivalence of every kept output and every gate over all inputs, attached circuit unchanged, result well formed/copyable, named block extracts to the attached circuit's function.",
+    "Trusted: CPython, z3, proxies, 40-line reference composition. Bounded: circuits <=3 inputs/<=5 gates + feature family. Right-connect with repeated other_connectors outside.",
+    "translation validation vs reference netlist composition (z3 equivalence)", "DESIGN.md §3 C10")
+add("C19", "translation_validation",
+    "Translation validation: rename (every gate), replace_inputs (cofactor under z3 assumptions), replace_subcircuit (cut-bounded cones; relabelled / cleaned-up / bench-converted equivalent replacements) and remove_gate are run on a bounded family and the function before/after is compared by z3 over all inputs, with reference predicates for references, input order and well-formedness.",
+    "Trusted: CPython, z3, proxies. Bounded: <=4 inputs/<=8 gates/<=2 blocks.",
+    "translation validation (z3 equivalence / cofactor) per rewrite call", "DESIGN.md §3 C19")
+add("C20", "exploration",
+    "Bounded exploration: systematic small netlists x start lists x directions x DFS/BFS x hook sets against independent reachability / order oracles (each once, dependency order, enter-before-exit, post-order exits, unvisited = complement in topological order, end hook), and random cyclic netlists for the cycle check.",
+    "No value dimension: enumerated, not solved. Bounded: systematic <=2 inputs/<=3 gates, seeded <=4 inputs/<=10 gates, cyclic <=5 gates.",
+    "bounded exploration vs independent oracles", "DESIGN.md §3 C20")
